@@ -10,6 +10,10 @@ const WhopLocSymbol = Symbol("whopper-location")
 type WhopLoc struct {
 	Method  *Method
 	Current int
+	// Primary is true when Current is the index of the combination whose
+	// primary method is running instead of a wrapper. The next method is
+	// then the next primary.
+	Primary bool
 }
 
 // String representation of the Object.
@@ -43,6 +47,9 @@ func (wl *WhopLoc) Eval(s *Scope, depth int) Object {
 }
 
 func (wl *WhopLoc) Continue(s *Scope, args List, depth int) Object {
+	if wl.Primary {
+		return wl.Method.primaryCall(s, args, depth, wl.Current+1)
+	}
 	// Current is the index of the combination whose wrapper is running. It
 	// is not advanced so that a wrapper can continue more than once.
 	for i := wl.Current + 1; i < len(wl.Method.Combinations); i++ {
@@ -61,6 +68,14 @@ func (wl *WhopLoc) Continue(s *Scope, args List, depth int) Object {
 }
 
 func (wl *WhopLoc) HasNext() bool {
+	if wl.Primary {
+		for i := wl.Current + 1; i < len(wl.Method.Combinations); i++ {
+			if wl.Method.Combinations[i].Primary != nil {
+				return true
+			}
+		}
+		return false
+	}
 	// A query must not move the location.
 	for i := wl.Current + 1; i < len(wl.Method.Combinations); i++ {
 		if wl.Method.Combinations[i].Wrap != nil {
